@@ -13,7 +13,7 @@ fn native_dir() -> String {
 
 pub fn scenarios_for(prop: &str) -> Vec<&'static str> {
     match prop {
-        "C04" => vec!["sync_rendezvous", "small_payload_paths", "drain_blocked_senders", "zst_and_padding", "async_send_sync_recv"],
+        "C04" => vec!["sync_rendezvous", "small_payload_paths", "drain_blocked_senders", "zst_and_padding", "async_send_sync_recv", "async_recv_busy_poll", "async_send_busy_poll"],
         _ => vec![
             "sync_rendezvous",
             "sync_mpsc_cap1",
@@ -28,6 +28,8 @@ pub fn scenarios_for(prop: &str) -> Vec<&'static str> {
             "stream_spurious",
             "drain_blocked_senders",
             "zst_and_padding",
+            "async_recv_busy_poll",
+            "async_send_busy_poll",
         ],
     }
 }
